@@ -533,6 +533,11 @@ def rand_qubit_operator(of, rng):
             c = rng.choice([1, -1, 2, 3]) / rng.choice([1, 2, 4, 8])
             if r < 0.3:
                 c = complex(c, rng.choice([1, -1, 2]) / rng.choice([1, 2, 4]))
+            elif r < 0.45 and float(c).is_integer():
+                c = int(c)                      # Python int coefficient
+            elif r < 0.55:
+                import numpy
+                c = numpy.float64(c)            # numpy scalar coefficient
         op.terms[term] = c
     return op
 
